@@ -7,7 +7,7 @@ from props.common import relevant
 def sessions(ctx):
     def it(rep):
         yield from sessbase.model_sessions(ctx, rep, 'MC_Session_live.cfg', 'filter / selection changes at every point of the history',
-                                           ctx.pick(1200, 20000), override={'MaxLen': ctx.pick(5, 5)})
+                                           ctx.pick(1200, 20000), override={'MaxLen': ctx.pick(4, 5)})
         for k in range(ctx.pick(200, 2000)):
             g = gen.SessionGen(ctx.seed * 49979687 + k, nconn=(1, 3), nmsg=(15, 45), junk=0.05, cmds=0.25, core=True, unresolved=0.08,
                                matcher_depth=k % 3, with_init_filter=0.4)
